@@ -195,7 +195,7 @@ func c01Scenarios(tier string) []engine.Scenario {
 			var a []engine.Action
 			for _, b := range bothBrowsers {
 				a = append(a, loginActs(w, b, []string{U1, U2}, accounts, false, []bool{false})...)
-				a = append(a, twofaValidateActs(w, b, accounts, []string{N1, N2}, true)...)
+				a = append(a, twofaValidateActs(s, w, b, accounts, []string{N1, N2}, true)...)
 				a = append(a, simple("logout("+b+")", func(s *world.Stack) world.Req { return flows.Logout(s, b) }))
 			}
 			a = append(a, flows.Advance(31*time.Second))
@@ -293,12 +293,9 @@ func confirmActs(w *world.World, b string, owners []string) []engine.Action {
 
 // twofaValidateActs: what can be typed at the TOTP / SMS validation prompts.
 // phones are the numbers whose messages the actor can read.
-func twofaValidateActs(w *world.World, b string, accounts, phones []string, rich bool) []engine.Action {
+func twofaValidateActs(st *world.Stack, w *world.World, b string, accounts, phones []string, rich bool) []engine.Action {
 	var out []engine.Action
-	if s, _ := w.DB.Users[U1]; true {
-		_ = s
-	}
-	if subj := subject(w, b, "totp"); subj != "" {
+	if subj := subject(w, b, "totp"); subj != "" && st.Cfg.Has("totp2fa") {
 		for _, c := range totpCands(w, subj, accounts, rich) {
 			c := c
 			out = append(out, flows.A(fmt.Sprintf("totp-validate(%s,%s)", b, c.note), func(s *world.Stack, _ *world.World) world.Req {
@@ -316,7 +313,7 @@ func twofaValidateActs(w *world.World, b string, accounts, phones []string, rich
 			}, ""))
 		}
 	}
-	if subj := subject(w, b, "sms"); subj != "" {
+	if subj := subject(w, b, "sms"); subj != "" && st.Cfg.Has("sms2fa") {
 		out = append(out, flows.A(fmt.Sprintf("sms-validate(%s,resend)", b), func(s *world.Stack, _ *world.World) world.Req {
 			r := flows.SMSValidate(s, b, "", "")
 			r.Tag.Note = "resend"
